@@ -67,9 +67,11 @@ func selectionIsTotalOrder(p *Prog, mr mapRange) (ok bool, why string) {
 	if len(accs) == 0 {
 		return false, "no element of the map is kept across iterations in a way the analysis recognises (the kept value is not the key or value itself)"
 	}
+	type sideShape struct{ s, side string }
+	type envT map[*ssa.Parameter]sideShape
 	// shape of an expression over one side
-	var shape func(v ssa.Value, depth int) (string, string)
-	shape = func(v ssa.Value, depth int) (string, string) {
+	var shape func(v ssa.Value, env envT, depth int) (string, string)
+	shape = func(v ssa.Value, env envT, depth int) (string, string) {
 		v = canon(v)
 		if depth > 6 {
 			return "?", "mixed"
@@ -84,6 +86,11 @@ func selectionIsTotalOrder(p *Prog, mr mapRange) (ok bool, why string) {
 			return k, "acc"
 		}
 		switch x := v.(type) {
+		case *ssa.Parameter:
+			if ss, ok := env[x]; ok {
+				return ss.s, ss.side
+			}
+			return "?", "mixed"
 		case *ssa.Const:
 			return x.String(), ""
 		case *ssa.Call:
@@ -98,7 +105,7 @@ func selectionIsTotalOrder(p *Prog, mr mapRange) (ok bool, why string) {
 			side := ""
 			var parts []string
 			for _, a := range x.Call.Args {
-				s, sd := shape(a, depth+1)
+				s, sd := shape(a, env, depth+1)
 				parts = append(parts, s)
 				if sd == "mixed" || (sd != "" && side != "" && sd != side) {
 					return "?", "mixed"
@@ -109,41 +116,83 @@ func selectionIsTotalOrder(p *Prog, mr mapRange) (ok bool, why string) {
 			}
 			return name + "(" + strings.Join(parts, ",") + ")", side
 		case *ssa.Field:
-			s, sd := shape(x.X, depth+1)
+			s, sd := shape(x.X, env, depth+1)
 			return s + "." + fieldOf(x).Name(), sd
 		case *ssa.Convert:
-			return shape(x.X, depth+1)
+			return shape(x.X, env, depth+1)
 		case *ssa.ChangeType:
-			return shape(x.X, depth+1)
+			return shape(x.X, env, depth+1)
 		}
 		return "?", "mixed"
 	}
-	atoms := map[*ssa.BinOp]selAtom{}
+	atomOf := func(bo *ssa.BinOp, env envT) (selAtom, bool, string) {
+		switch bo.Op {
+		case token.LSS, token.LEQ, token.GTR, token.GEQ, token.EQL, token.NEQ:
+		default:
+			return selAtom{}, false, ""
+		}
+		sx, dx := shape(bo.X, env, 0)
+		sy, dy := shape(bo.Y, env, 0)
+		if dx == "" || dy == "" || dx == "mixed" || dy == "mixed" || dx == dy {
+			return selAtom{}, false, ""
+		}
+		if sx != sy {
+			return selAtom{}, false, fmt.Sprintf("the candidate and the kept element are compared through different functions (%s against %s)", sx, sy)
+		}
+		return selAtom{fn: sx, candOnX: dx == "cand", op: bo.Op}, true, ""
+	}
+	// a private boolean helper the comparison may have been moved into
+	helperOf := func(cl *ssa.Call) *ssa.Function {
+		h := cl.Common().StaticCallee()
+		if h == nil || !p.InModule(h) || len(h.Blocks) == 0 || cl.Call.IsInvoke() {
+			return nil
+		}
+		res := h.Signature.Results()
+		if res.Len() != 1 || !isBoolType(res.At(0).Type()) {
+			return nil
+		}
+		return h
+	}
+	bindEnv := func(cl *ssa.Call, h *ssa.Function, env envT) envT {
+		ne := envT{}
+		for i, prm := range h.Params {
+			if i < len(cl.Call.Args) {
+				s, sd := shape(cl.Call.Args[i], env, 0)
+				ne[prm] = sideShape{s, sd}
+			}
+		}
+		return ne
+	}
+	// collect the key functions compared (in the body and in helpers)
 	fnSet := map[string]bool{}
-	for b := range mr.Body {
-		for _, in := range b.Instrs {
-			bo, ok := in.(*ssa.BinOp)
-			if !ok {
+	shapeErr := ""
+	var collect func(blocks []*ssa.BasicBlock, inBody func(*ssa.BasicBlock) bool, env envT, depth int)
+	collect = func(blocks []*ssa.BasicBlock, inBody func(*ssa.BasicBlock) bool, env envT, depth int) {
+		for _, b := range blocks {
+			if !inBody(b) {
 				continue
 			}
-			switch bo.Op {
-			case token.LSS, token.LEQ, token.GTR, token.GEQ, token.EQL, token.NEQ:
-			default:
-				continue
+			for _, in := range b.Instrs {
+				switch x := in.(type) {
+				case *ssa.BinOp:
+					if a, ok, e := atomOf(x, env); ok {
+						fnSet[a.fn] = true
+					} else if e != "" {
+						shapeErr = e
+					}
+				case *ssa.Call:
+					if h := helperOf(x); h != nil && depth < 3 {
+						collect(h.Blocks, func(*ssa.BasicBlock) bool { return true }, bindEnv(x, h, env), depth+1)
+					}
+				}
 			}
-			sx, dx := shape(bo.X, 0)
-			sy, dy := shape(bo.Y, 0)
-			if dx == "" || dy == "" || dx == "mixed" || dy == "mixed" || dx == dy {
-				continue
-			}
-			if sx != sy {
-				return false, fmt.Sprintf("the candidate and the kept element are compared through different functions (%s against %s)", sx, sy)
-			}
-			atoms[bo] = selAtom{fn: sx, candOnX: dx == "cand", op: bo.Op}
-			fnSet[sx] = true
 		}
 	}
-	if len(atoms) == 0 {
+	collect(mr.Fn.Blocks, func(b *ssa.BasicBlock) bool { return mr.Body[b] }, envT{}, 0)
+	if shapeErr != "" {
+		return false, shapeErr
+	}
+	if len(fnSet) == 0 {
 		return false, "the candidate is never compared with the element kept so far: the last (or first) one in iteration order wins"
 	}
 	var fns []string
@@ -181,6 +230,93 @@ func selectionIsTotalOrder(p *Prog, mr mapRange) (ok bool, why string) {
 		}
 		return false
 	}
+	// boolean evaluation under one ordering of the key functions: 1 true, 0 false, -1 unknown; cross: an atom was used
+	var evalBool func(v ssa.Value, env envT, ord map[string]int, phiVal map[*ssa.Phi]ssa.Value, depth int) (int, bool)
+	var simulate func(h *ssa.Function, env envT, ord map[string]int, depth int) (int, bool)
+	evalBool = func(v ssa.Value, env envT, ord map[string]int, phiVal map[*ssa.Phi]ssa.Value, depth int) (int, bool) {
+		if isFlag(v) {
+			return 1, false // an element has been kept already
+		}
+		switch x := v.(type) {
+		case *ssa.Const:
+			if b, ok := constBool(x); ok {
+				if b {
+					return 1, false
+				}
+				return 0, false
+			}
+		case *ssa.UnOp:
+			if x.Op == token.NOT {
+				r, c := evalBool(x.X, env, ord, phiVal, depth)
+				if r < 0 {
+					return -1, c
+				}
+				return 1 - r, c
+			}
+		case *ssa.BinOp:
+			if a, ok, _ := atomOf(x, env); ok {
+				if evalAtom(a, ord[a.fn]) {
+					return 1, true
+				}
+				return 0, true
+			}
+		case *ssa.Phi:
+			if e, ok := phiVal[x]; ok {
+				return evalBool(e, env, ord, phiVal, depth)
+			}
+		case *ssa.Call:
+			if h := helperOf(x); h != nil && depth < 3 {
+				return simulate(h, bindEnv(x, h, env), ord, depth+1)
+			}
+		}
+		return -1, false
+	}
+	simulate = func(h *ssa.Function, env envT, ord map[string]int, depth int) (int, bool) {
+		b := h.Blocks[0]
+		var prev *ssa.BasicBlock
+		phiVal := map[*ssa.Phi]ssa.Value{}
+		cross := false
+		for steps := 0; steps < 200; steps++ {
+			if prev != nil {
+				for _, in := range b.Instrs {
+					ph, ok := in.(*ssa.Phi)
+					if !ok {
+						break
+					}
+					for i, pr := range b.Preds {
+						if pr == prev {
+							phiVal[ph] = ph.Edges[i]
+						}
+					}
+				}
+			}
+			switch t := b.Instrs[len(b.Instrs)-1].(type) {
+			case *ssa.If:
+				r, c := evalBool(t.Cond, env, ord, phiVal, depth)
+				cross = cross || c
+				if r < 0 {
+					return -1, cross
+				}
+				prev = b
+				if r == 1 {
+					b = b.Succs[0]
+				} else {
+					b = b.Succs[1]
+				}
+			case *ssa.Jump:
+				prev, b = b, b.Succs[0]
+			case *ssa.Return:
+				if len(t.Results) != 1 {
+					return -1, cross
+				}
+				r, c := evalBool(t.Results[0], env, ord, phiVal, depth)
+				return r, cross || c
+			default:
+				return -1, cross
+			}
+		}
+		return -1, cross
+	}
 	// the decision table
 	type outcome struct{ update, skip, early bool }
 	table := map[string]outcome{}
@@ -189,13 +325,8 @@ func selectionIsTotalOrder(p *Prog, mr mapRange) (ok bool, why string) {
 	bodyEntry := mr.Head.Succs[0]
 	walkModel := func(ord map[string]int) outcome {
 		var out outcome
-		type st struct {
-			b     *ssa.BasicBlock
-			cross bool
-		}
-		seen := map[st]bool{}
-		var dfs func(b *ssa.BasicBlock, from *ssa.BasicBlock, cross bool)
-		dfs = func(b, from *ssa.BasicBlock, cross bool) {
+		var dfs func(b *ssa.BasicBlock, from *ssa.BasicBlock, cross bool, phiVal map[*ssa.Phi]ssa.Value, steps int)
+		dfs = func(b, from *ssa.BasicBlock, cross bool, phiVal map[*ssa.Phi]ssa.Value, steps int) {
 			if b == mr.Head {
 				idx := -1
 				for i, pr := range mr.Head.Preds {
@@ -219,51 +350,45 @@ func selectionIsTotalOrder(p *Prog, mr mapRange) (ok bool, why string) {
 				}
 				return
 			}
-			if !mr.Body[b] {
+			if !mr.Body[b] || steps > 300 {
 				out.early = true
 				return
 			}
-			s := st{b, cross}
-			if seen[s] {
-				return
+			pv := map[*ssa.Phi]ssa.Value{}
+			for k, v := range phiVal {
+				pv[k] = v
 			}
-			seen[s] = true
+			for _, in := range b.Instrs {
+				ph, ok := in.(*ssa.Phi)
+				if !ok {
+					break
+				}
+				for i, pr := range b.Preds {
+					if pr == from {
+						pv[ph] = ph.Edges[i]
+					}
+				}
+			}
 			last := b.Instrs[len(b.Instrs)-1]
 			ifi, ok := last.(*ssa.If)
 			if !ok {
 				for _, sc := range b.Succs {
-					dfs(sc, b, cross)
+					dfs(sc, b, cross, pv, steps+1)
 				}
 				return
 			}
-			cond, neg := stripNot(ifi.Cond)
-			if bo, ok := cond.(*ssa.BinOp); ok {
-				if a, ok := atoms[bo]; ok {
-					v := evalAtom(a, ord[a.fn])
-					if neg {
-						v = !v
-					}
-					if v {
-						dfs(b.Succs[0], b, true)
-					} else {
-						dfs(b.Succs[1], b, true)
-					}
-					return
-				}
+			r, c := evalBool(ifi.Cond, envT{}, ord, pv, 0)
+			switch r {
+			case 1:
+				dfs(b.Succs[0], b, cross || c, pv, steps+1)
+			case 0:
+				dfs(b.Succs[1], b, cross || c, pv, steps+1)
+			default:
+				dfs(b.Succs[0], b, cross, pv, steps+1)
+				dfs(b.Succs[1], b, cross, pv, steps+1)
 			}
-			if isFlag(cond) {
-				// an element has been kept already
-				if neg {
-					dfs(b.Succs[1], b, cross)
-				} else {
-					dfs(b.Succs[0], b, cross)
-				}
-				return
-			}
-			dfs(b.Succs[0], b, cross)
-			dfs(b.Succs[1], b, cross)
 		}
-		dfs(bodyEntry, mr.Head, false)
+		dfs(bodyEntry, mr.Head, false, map[*ssa.Phi]ssa.Value{}, 0)
 		return out
 	}
 	keyOf := func(o []int) string { return fmt.Sprint(o) }
